@@ -282,8 +282,24 @@ func c01Sequential(r *core.Run, idx int, rng *rand.Rand) {
 		q = "id=" + esc(esc(id))
 		supplied = []string{esc(id)}
 	}
+	// the same callback once, or (every third case) three times in a row on the same provider: how the earlier ones
+	// ended changes nothing about the later ones
+	repeats := 1
+	if idx%3 == 1 && late != "storage_panics" {
+		repeats = 3
+		r.Count("callbacks_repeated_on_the_same_provider", 1)
+	}
+	for rep := 0; rep < repeats; rep++ {
+		c01JudgeOne(r, wl, idx, rep, e, sc, other, state, late, placement, method, q, body, supplied)
+	}
+}
+
+func c01JudgeOne(r *core.Run, wl string, idx, rep int, e *env.Env, sc, other *cbScenario, state, late, placement, method, q, body string, supplied []string) {
 	call := e.Do(env.Req{Method: method, Path: env.PathLogin, Query: q, Body: body, Host: sc.Host})
 	class := fmt.Sprintf("%s|%s|%s|%s|%s", state, late, placement, method, sc.S.Binding[strings.LastIndex(sc.S.Binding, ":")+1:])
+	if rep > 0 {
+		class += fmt.Sprintf("|repeat=%d", rep)
+	}
 	desc := map[string]any{"state": state, "late_failure": late, "placement": placement, "method": method, "session": sc.S, "other_session": other.S.ID, "query": clipS(q, 300), "body": clipS(body, 300)}
 	viol := func(clause, reason string) {
 		r.Violate(core.Violation{Clause: clause, Class: class, Reason: reason, Workload: wl, Index: idx, Case: desc, Observed: call.Describe()})
